@@ -343,7 +343,7 @@ def classify(f, bounds, active):
     i = f["call"]
     sh = shadow(h, bounds, f["conc"])
     ev = sh[i] if i < len(sh) else {}
-    rep = f.get("replies", [])
+    rep = f.get("replies") or []
     earlier_eof = any(r["err"] == "EOF" for r in rep[:i])
     if f["kind"] == "hang":
         if i < len(h) and h[i][0] == 0:
